@@ -675,6 +675,7 @@ class CSSStyleSheet(cssutils.stylesheets.StyleSheet):
                     if not any(r is x for x in oldrules):
                         r._parent, r._parentRule = parent, parentRule
                         r._parentStyleSheet = parentStyleSheet
+                self._updateVariables()
                 raise
             return index
 
